@@ -329,12 +329,16 @@ package statebackend
 // view is pinned to is the one asked for (by number) or the one the hash resolves to (by hash), and
 // the retention check comes first.
 //@ ghost var retainedNumber uint64
+//@ ghost var hashResolved bool
+// (the block-data guard: stricter than the state guard - it has no carve-out for the block below the floor)
+//@ extern func github.com/NethermindEth/juno/pruner.RequireRetained
 //@ extern func github.com/NethermindEth/juno/pruner.RequireStateRetainedByBlockNumber
 //@   logged as RequireRetained
 //@ extern func github.com/NethermindEth/juno/pruner.BlockNumberByHashIfStateRetained
 //@   logged as NumberByHash
-//@   assigns retainedNumber
+//@   assigns retainedNumber, hashResolved
 //@   ensures result1 == nil ==> retainedNumber == result0
+//@   ensures hashResolved == (result1 == nil)
 //@ extern func github.com/NethermindEth/juno/pruner.StateRootIfStateRetainedByBlockNumber
 //@   logged as RootIfRetained
 //@ extern func github.com/NethermindEth/juno/core/deprecatedstate.NewHistory
@@ -367,10 +371,15 @@ package statebackend
 //@   nosafe
 //@   requires b != nil && b.database != nil && blockHash != nil
 //@   modifies *
-//@   assigns retainedNumber, calls_NumberByHash, arg_NumberByHash_blockHash, calls_LegacyHistory, arg_LegacyHistory_blockNumber
+//@   assigns retainedNumber, hashResolved, calls_NumberByHash, arg_NumberByHash_blockHash, calls_LegacyHistory, arg_LegacyHistory_blockNumber
 //@   callsite BlockNumberByHashIfStateRetained@*: of_the_hash_asked_for: $1 == blockHash
 //@   ensures a_view_pinned_to_the_block: result2 == nil && calls_NumberByHash == old(calls_NumberByHash) + 1 ==> calls_LegacyHistory == old(calls_LegacyHistory) + 1 && arg_LegacyHistory_blockNumber == retainedNumber
 //@   ensures history_only_for_a_resolved_hash: calls_LegacyHistory == old(calls_LegacyHistory) || calls_NumberByHash == old(calls_NumberByHash) + 1
+// The ONE retention decision for a state read by hash is the state guard's (which admits the block
+// below the oldest kept one - the carve-out that keeps the parent state of the oldest block readable):
+// a hash it resolves is served, with no further refusal.
+//@   ensures a_resolved_hash_is_served: calls_NumberByHash == old(calls_NumberByHash) + 1 && hashResolved ==> result2 == nil
+//@   ensures an_unresolved_hash_is_refused: calls_NumberByHash == old(calls_NumberByHash) + 1 && !hashResolved ==> result2 != nil
 //@ func (*stateBackend).StateAtBlockNumber
 //@   props C03
 //@   arith int
